@@ -32,6 +32,18 @@ CHECKS = {
     ),
 }
 
+CHECKS["C20"] = dict(
+    text="The configuration space is finite and enumerated completely: all 256 bytes, all 65 536 byte pairs, every "
+         "key of the element/modifier/structure tables (from the AST, duplicates kept), every documentation entry. "
+         "TLC decides every item over the extracted code page (VyConfigData): injectivity, byte round trip, one "
+         "general token per key by the real tokenise and by the specification's lexer, not shadowed in the real "
+         "parse, no duplicate key, documented arity = table arity.",
+    note="Trusted: extraction (AST of elements.py, line parser of elements.yaml), spec lexer/parser. Exhaustive.",
+    ref="DESIGN.md section 6 C20",
+    technique="TLA+ spec (VyConfig over extracted VyConfigData, VyLexer, VyParser) evaluated by TLC on every "
+              "configuration item and on the observed tokenise/parse/encoding behaviour",
+)
+
 NOT_APPLICABLE = {}
 
 DEFAULT_NA = ("check under construction in this round; it will be claimed when its TLA+ module and "
